@@ -133,6 +133,23 @@ func (e *EmptyDataProvider) GetUnderlying() any {
 	return e.Underlying
 }
 
+// builds a map data provider out of a reflected map whose key and value kinds have already been checked.
+// The map may be of a named type (i.e `type Params map[string]string`), in which case it is converted to its plain map type.
+func newAnyMapDataProvider[T any](x reflect.Value, val any) (DataProvider, error) {
+	m, ok := x.Interface().(map[string]T)
+	if !ok {
+		target := reflect.TypeOf(m)
+		if !x.CanConvert(target) {
+			return &EmptyDataProvider{Underlying: val}, fmt.Errorf("could not convert %s to a data provider", x.Type().String())
+		}
+		m, ok = x.Convert(target).Interface().(map[string]T)
+		if !ok {
+			return &EmptyDataProvider{Underlying: val}, fmt.Errorf("could not convert %s to a data provider", x.Type().String())
+		}
+	}
+	return NewSafeMapDataProvider(m), nil
+}
+
 func TryNewAnyDataProvider(val any) (DataProvider, error) {
 	dp, ok := val.(DataProvider)
 	if ok {
@@ -154,15 +171,15 @@ func TryNewAnyDataProvider(val any) (DataProvider, error) {
 
 		switch valTyp.Kind() { // TODO: add more types
 		case reflect.String:
-			return NewSafeMapDataProvider(x.Interface().(map[string]string)), nil
+			return newAnyMapDataProvider[string](x, val)
 		case reflect.Int:
-			return NewSafeMapDataProvider(x.Interface().(map[string]int)), nil
+			return newAnyMapDataProvider[int](x, val)
 		case reflect.Float64:
-			return NewSafeMapDataProvider(x.Interface().(map[string]float64)), nil
+			return newAnyMapDataProvider[float64](x, val)
 		case reflect.Bool:
-			return NewSafeMapDataProvider(x.Interface().(map[string]bool)), nil
+			return newAnyMapDataProvider[bool](x, val)
 		case reflect.Interface:
-			return NewSafeMapDataProvider(x.Interface().(map[string]any)), nil
+			return newAnyMapDataProvider[any](x, val)
 		default:
 			return &EmptyDataProvider{Underlying: val}, fmt.Errorf("could not convert map[string]%s to a data provider", valTyp.String())
 		}
